@@ -45,8 +45,12 @@ def classify(ctx, rc, err, predicted, case, what_prefix):
     if rep is None and rc in (0, 1):
         return True
     if rep is None:
-        if rc == 137:
-            rep = dict(error="timeout", where="?", file="?", text=err[-300:])
+        if rc in (137, -9, 124):
+            # FFTW_PATIENT planning of a long odd length under ASan can exceed any sensible limit: a timeout is
+            # recorded, it is not evidence of a memory error
+            ctx.count("timeout")
+            ctx.notes.append("timeout (not counted as a violation): %s" % json.dumps(case)[:300])
+            return True
         else:
             rep = dict(error="exit-%d" % rc, where="?", file="?", text=err[-600:])
     cause = "unpredicted"
@@ -556,21 +560,30 @@ def valgrind_runs(ctx, tg, work):
         jobs.append((name, text, base + ["-i", p]))
     jobs.append(("plain", "", base))
 
-    def runjob(j):
-        return bc.run_proc(["valgrind", "-q", "--error-exitcode=99", "--track-origins=no", tg["inovesa"]] + j[2],
-                           env=vp_build.xdg_env(), timeout=600, cwd=work)
-    res = bc.pmap(runjob, jobs)
+    res = bc.pmap(lambda j: run_valgrind(tg, j[2], work), jobs)
     for (name, text, args), (rc, so, err) in zip(jobs, res):
-        ctx.count("valgrind:%s" % ("clean" if rc != 99 else "report"))
-        if rc == 99:
-            import re
-            kind = "uninitialised" if "uninitialised" in err else ("invalid-access" if "Invalid" in err else "memcheck")
-            m = re.search(r"(?:at|by) 0x[0-9A-F]+: (vfps::[\w:~]+|main)", err)
-            where = m.group(1) if m else "?"
-            ctx.violation("impl-oracle", "valgrind memcheck: %s in %s with input %s" % (kind, where, name),
-                          case=dict(kind="program-valgrind", file=name, contents=text, args=args), observed=err[:1500],
-                          expected="no memcheck error", sig=dict(stage="valgrind", cause=kind, where=where))
+        report_valgrind(ctx, name, text, args, rc, err)
         ctx.case_done(("valgrind", name), True)
+
+
+def run_valgrind(tg, args, work):
+    return bc.run_proc(["valgrind", "-q", "--error-exitcode=99", "--track-origins=no", tg["inovesa"]] + args,
+                       env=vp_build.xdg_env(), timeout=600, cwd=work)
+
+
+def report_valgrind(ctx, name, text, args, rc, err):
+    import re
+    ctx.count("valgrind:%s" % ("clean" if rc != 99 else "report"))
+    if rc != 99:
+        return
+    kind = "uninitialised" if "uninitialised" in err else ("invalid-access" if "Invalid" in err else "memcheck")
+    m = re.search(r"(?:at|by) 0x[0-9A-F]+: (vfps::[\w:~]+|main)", err)
+    where = m.group(1) if m else "?"
+    inp = {"-Z": "impedance", "--tracking": "tracking", "-i": "startdist"}
+    ikind = next((v for k, v in inp.items() if k in args), "none")
+    ctx.violation("impl-oracle", "valgrind memcheck: %s in %s with %s file %s" % (kind, where, ikind, name),
+                  case=dict(kind="program-valgrind", file=name, contents=text, args=[("@" + name if a.endswith("/" + name) else a) for a in args]),
+                  observed=err[:1500], expected="no memcheck error", sig=dict(stage="valgrind", cause=kind, input=ikind, where=where))
 
 
 # ---------------------------------------------------------------------------------- entry points
@@ -663,6 +676,13 @@ def replay(ctx, rp):
                 if s != exp:
                     ctx.violation("impl-oracle", "Impedance::operator+= reads past the shorter operand", case=case, observed=[str(x) for x in s[:20]],
                                   sig=dict(stage="api", cause="impedance-sum-overread"))
+        elif kind == "program-valgrind":
+            p = os.path.join(work, case["file"])
+            with open(p, "w") as f:
+                f.write(case.get("contents") or "")
+            args = [p if a == "@" + case["file"] else a for a in case["args"]]
+            rc, so, err = run_valgrind(tg, args, work)
+            report_valgrind(ctx, case["file"], case.get("contents") or "", args, rc, err)
         else:
             run(ctx)
             return
